@@ -44,8 +44,84 @@ pub fn run_one(rt: &tokio::runtime::Runtime, irrd_port: u16, n: usize, fault: Op
     }
 }
 
+/// C15 end-to-end: managed policies of which some cannot be evaluated (IRR error for an unknown
+/// set, PeerAS, AS-path regexp, attribute match); the others must still be loaded and committed.
+fn c15_family(rt: &tokio::runtime::Runtime, irrd_port: u16, opts: &Opts, sink: &mut Sink) {
+    let mut rng = Rng::new(opts.seed ^ 0xC15);
+    let good: Vec<String> = vec!["{ 192.0.2.0/24^24-26 }".into(), "{ 2001:db8::/32^48 }".into(), "{ 198.51.100.0/24, 2001:db8:1::/48 }".into()];
+    let bad: Vec<String> = vec!["AS-DOESNOTEXIST".into(), "PeerAS".into(), "<^AS65000 .* AS65001$>".into(), "community(65000:1)".into(), "AS-NOPE AND { 10.0.0.0/8^+ }".into()];
+    let n = if opts.thorough() { 120 } else { 24 };
+    for i in 0..n {
+        let ng = 1 + rng.below(3);
+        let nb = 1 + rng.below(3);
+        let mut stmts: Vec<(String, String, bool)> = vec![];
+        for g in 0..ng {
+            stmts.push((format!("good{g}"), rng.pick(&good).clone(), true));
+        }
+        for b in 0..nb {
+            stmts.push((format!("bad{b}"), rng.pick(&bad).clone(), false));
+        }
+        rng.shuffle(&mut stmts);
+        let log = Arc::new(Mutex::new(Log::default()));
+        let script = Script {
+            running: fakejunos::running_with_exprs(&stmts.iter().map(|(n, e, _)| (n.clone(), e.clone())).collect::<Vec<_>>()),
+            ephemeral: fakejunos::empty_config(),
+            fault: None,
+        };
+        let log2 = log.clone();
+        let connector = agent::verif::connector(move || {
+            let script = script.clone();
+            let log = log2.clone();
+            Box::pin(async move {
+                let (t, peer) = mt::new();
+                tokio::spawn(fakejunos::serve(peer, script, log));
+                Ok(t)
+            })
+        });
+        let res = rt.block_on(async {
+            tokio::time::timeout(Duration::from_secs(20), agent::verif::run_once(connector, "127.0.0.1", irrd_port, "bgpfu")).await
+        });
+        std::thread::sleep(Duration::from_millis(5));
+        let g = log.lock().unwrap();
+        let mut loaded: Vec<String> = g
+            .loads
+            .iter()
+            .filter_map(|l| {
+                let a = l.find("<name>")? + 6;
+                let b = l[a..].find("</name>")? + a;
+                Some(l[a..b].to_string())
+            })
+            .collect();
+        loaded.sort();
+        let mut want: Vec<String> = stmts.iter().filter(|s| s.2).map(|s| s.0.clone()).collect();
+        want.sort();
+        let committed = g.names.iter().any(|n| n == "commit-configuration");
+        let case = format!("c15;{i};{}", stmts.iter().map(|(n, e, _)| format!("{n}={}", hexs(e))).collect::<Vec<_>>().join(","));
+        let verdict = match &res {
+            Err(_) => "violation run-hangs".to_string(),
+            Ok(Err(_)) => "violation unevaluable-policy-aborts-run".to_string(),
+            Ok(Ok(())) if loaded != want => "violation other-policies-not-updated".to_string(),
+            Ok(Ok(())) if !committed => "violation not-committed".to_string(),
+            Ok(Ok(())) => "ok".to_string(),
+        };
+        sink.direct(&case, verdict);
+        sink.count("c15.runs");
+        sink.count(&format!("c15.bad.{nb}"));
+        if sink.samples.len() < 8 {
+            sink.sample(format!("{case} -> result={:?} loaded={loaded:?}", res.as_ref().map(|r| r.is_ok())));
+        }
+    }
+}
+
 pub fn main(opts: &Opts) {
     let mut sink = Sink::new();
+    if opts.extra.iter().any(|e| e == "c15") {
+        let irrd = FakeIrrd::start(HashMap::new());
+        let rt = tokio::runtime::Builder::new_multi_thread().worker_threads(4).enable_all().build().unwrap();
+        c15_family(&rt, irrd.port, opts, &mut sink);
+        sink.write(opts, "agentrun");
+        return;
+    }
     let irrd = FakeIrrd::start(HashMap::new());
     let rt = tokio::runtime::Builder::new_multi_thread().worker_threads(4).enable_all().build().unwrap();
     let mut cases: Vec<(usize, Option<(usize, Fault)>)> = vec![];
